@@ -14,9 +14,13 @@ def frag_groups(ctx):
         groups.append(scen.refragment(ctx.rng, base))
     metamorphic(ctx, groups, "refragment", ("res", "peer", "sink", "avail", "maxdata", "lid", "ev"),
                 "the same device byte stream under a different read fragmentation gave a different result", "frag-independence")
+    # several readers on one connection: every packet is still reassembled from ITS OWN bytes (a reader's header/payload reads must not interleave
+    # with another reader's), whichever thread/task took it off the transport
+    from units import conc
+    conc.conc_sessions(ctx, int((30 if ctx.tier == "quick" else 400) * ctx.budget))
 
 
-Unit([("corrupt", scen.gen_corrupt, 2), ("shell", scen.gen_shell, 1), ("sync", scen.gen_sync_read, 1)],
+Unit([("corrupt", scen.gen_corrupt, 2), ("shell", scen.gen_shell, 1), ("sync", scen.gen_sync_read, 1), ("fragslow", scen.gen_frag_slow, 1)],
      (oracles.o_c03_overrequest, oracles.o_c03_corrupt, oracles.o_c01, oracles.o_c08, oracles.o_c09) + COMMON,
      "every base session is run under 6 read fragmentations (unfragmented, 1-byte, header split at a random offset 1..23, random 1..60, with empty reads, "
      "{23,24,25,4096}) and must give identical results/bytes sent (metamorphic); the fake transport flags any bulk_read asking for more than remains of "
